@@ -85,6 +85,8 @@ type Pipe struct {
 	writeOps    int
 	broken      bool // a write was refused: the stream is dead for its reader too
 	lateFail    func()
+	// LateWrite: see Write.
+	LateWrite bool
 	// SlowRead makes every Read call yield the processor that many times first: a consumer that is the slowest
 	// stage of the pipeline.
 	SlowRead int
@@ -135,7 +137,17 @@ func (p *Pipe) WaitDelivered(n int64) bool {
 	return true
 }
 
+// Write hands the bytes over; with LateWrite the call then stays parked until the monitor finds the rest of the system
+// quiescent: the bytes have long reached the peer (and may have been answered) when the writer learns that they are out.
 func (p *Pipe) Write(b []byte) (int, error) {
+	n, err := p.write(b)
+	if err == nil && p.LateWrite {
+		Y.Park(-2)
+	}
+	return n, err
+}
+
+func (p *Pipe) write(b []byte) (int, error) {
 	if c := p.overlap.Add(1); c > p.Overlap.Load() {
 		p.Overlap.Store(c)
 	}
